@@ -60,13 +60,27 @@ def observe(p, ops):
             rs.is_pipeline_successful())
 
 
-def request(p, ops, par, vec, op, target, tick=None):
+def request(p, ops, par, vec, op, target, tick=None, dep=False):
     """Apply one request to the real pipeline and check it against the table.
-    Returns the new model vector."""
+    Returns the new model vector.  "?state" only asks (check_transition), as a polling scheduler does."""
     from eudoxia.workload import OperatorState as S
     before = observe(p, ops)
     if before[0] != list(vec):
         raise Violation("C02.walk.state", {"got": before[0], "want": list(vec)}, tick)
+    if isinstance(target, str) and target.startswith("?"):
+        target = target[1:]
+        want = model_legal(vec, par, op, target)
+        try:
+            got = p.runtime_status().check_transition(ops[op], S(target))[0]
+        except Exception as e:  # noqa: BLE001
+            raise Violation("C02.walk.query_raised", {"par": par, "state": list(vec), "op": op, "target": target, "exc": repr(e)[:120]}, tick)
+        if bool(got) != want:
+            deps = target == "running" and target in TABLE[vec[op]]
+            raise Violation("C01.walk.query_ignores_parents" if deps and dep else "C02.walk.query_wrong",
+                            {"par": par, "state": list(vec), "op": op, "target": target, "answer": bool(got), "want": want}, tick)
+        if observe(p, ops) != before:
+            raise Violation("C02.walk.query_changed_state", {"par": par, "state": list(vec), "op": op, "target": target}, tick)
+        return tuple(vec)
     by_value = isinstance(target, str) and target.startswith("=")
     if by_value:
         target = target[1:]
@@ -80,6 +94,9 @@ def request(p, ops, par, vec, op, target, tick=None):
     if legal and raised is not None:
         raise Violation("C02.walk.legal_refused", {"par": par, "state": list(vec), "op": op, "target": target,
                                                    "exc": repr(raised)[:120]}, tick)
+    if not legal and raised is None and dep and not by_value and target == "running" and target in TABLE[vec[op]]:
+        raise Violation("C01.walk.started_before_parents", {"par": par, "state": list(vec), "op": op,
+                                                            "unfinished_parents": [q for q in par[op] if vec[q] != "completed"]}, tick)
     if not legal and raised is None:
         raise Violation("C02.walk.illegal_accepted", {"par": par, "state": list(vec), "op": op, "target": target,
                                                       "now": after[0]}, tick)
@@ -110,7 +127,12 @@ def run_walk(scn):
     try:
         for k, (op, target) in enumerate(scn["requests"]):
             legal = model_legal(vec, par, op, target) if not str(target).startswith("=") else False
-            vec = request(p, ops, par, vec, op, target, tick=k)
+            if str(target).startswith("?"):
+                legal = True
+                out["probes"]["polled"] = out["probes"].get("polled", 0) + 1
+            elif target == "running" and not legal and target in TABLE[vec[op]]:
+                out["probes"]["start_refused_for_parents"] = out["probes"].get("start_refused_for_parents", 0) + 1
+            vec = request(p, ops, par, vec, op, target, tick=k, dep=bool(scn.get("dep")))
             sig.append((op, target, legal))
             if not legal:
                 refused += 1
@@ -143,10 +165,45 @@ def gen_walk(r):
         if r.random() < 0.04:
             reqs.append([op, "=" + target])       # target given as the bare value string
             continue
+        if r.random() < 0.05:
+            reqs.append([op, "?" + target])       # only asked, as a polling scheduler does
+            continue
         if model_legal(vec, par, op, target):
             vec[op] = target
         reqs.append([op, target])
     return {"kind": "walk", "par": par, "requests": reqs}
+
+
+def gen_depwalk(r):
+    """C01: request histories on DAGs with several parents per operator, biased towards starting (and asking whether
+    one may start) operators whose parents are in every mix of states - repeatedly, while the parents finish one by one
+    in any order, fail and are retried."""
+    from .exgen import dag_parents
+    n = r.choice([3, 3, 4, 4, 5, 6])
+    shape = r.choice(["fanin", "fanin", "diamond", "random", "random", "multiroot"])
+    par = dag_parents(r, n, shape)
+    reqs = []
+    vec = ["pending"] * n
+    p_start = r.choice([0.2, 0.4, 0.6])
+    for _ in range(r.randint(30, 160)):
+        waiting = [o for o in range(n) if vec[o] == "assigned"]
+        if waiting and r.random() < p_start:
+            op = r.choice(waiting)
+            target = "running"
+            if r.random() < 0.4:
+                reqs.append([op, "?running"])
+                continue
+        else:
+            cands = [(o, t) for o in range(n) for t in STATES if model_legal(vec, par, o, t)]
+            if cands and r.random() < 0.85:
+                # parents out of insertion order, failures and retries included
+                op, target = r.choice(cands)
+            else:
+                op, target = r.randrange(n), r.choice(STATES)
+        if model_legal(vec, par, op, target):
+            vec[op] = target
+        reqs.append([op, target])
+    return {"kind": "walk", "dep": True, "par": par, "requests": reqs}
 
 
 def sweep_state_machine():
